@@ -30,6 +30,12 @@ SNIPPETS = [
     ("fullM2", "Doe v. Poe, 3 Marsh. 45 (Ky. 1830).", "FullCaseCitation", 0),  # J.J. Marsh.: same matched text as fullM1, other document
     ("fullM3", "Doe v. Poe, 3 J.J. Marsh. 45 (Ky. 1830).", "FullCaseCitation", 0),  # the same document as fullM2
     ("fullM4", "Doe v. Poe (1820) 3 Marsh. 45; and so on", "FullCaseCitation", 0),  # the same document as fullM1, year written before the citation
+    ("fullM5", "Doe v. Poe, 3 Marsh. 45 (Ky. 1821).", "FullCaseCitation", 0),  # the same document as fullM1, dated in the LAST year of A.K. Marsh.
+    ("fullFoo2", "Foo v. Baz, 2 U.S. 5 (1991).", "FullCaseCitation", 0),  # shares the party name Foo with fullA
+    ("supraFooVol", "See Foo, 2 supra, at 6.", "SupraCitation", 0),  # the rare volume-carrying supra form
+    ("fullDoeS", "State v. Doe, 4 U.S. 33 (1990).", "FullCaseCitation", 0),
+    ("fullDze", "State v. Dze, 3 U.S. 22 (1990).", "FullCaseCitation", 0),  # resolved_case_name_short set to 'Doe' below (two-step flow)
+    ("refDze", "State v. Dze, 3 U.S. 22 (1990). Later, Dze at 25 held.", "ReferenceCitation", 0),
     ("fullMac", "Mac v. Arthur, 4 U.S. 40 (1990).", "FullCaseCitation", 0),
     ("supraMacArthur", "See MacArthur, supra, at 5.", "SupraCitation", 0),  # in neither party name, only in their concatenation
     ("fullC", "Bar v. Baker, 2 F.2d 20 (1992).", "FullCaseCitation", 0),
@@ -69,7 +75,7 @@ SNIPPETS = [
 ]
 NAMES = [s[0] for s in SNIPPETS]
 CORE12 = ["fullA", "fullA0", "fullA2", "fullA3", "fullB", "fullC", "fullC3", "fullP", "fullQ", "fullU", "shortAmb", "shortAmbJones", "shortP", "shortPQux", "supraBar", "refJones", "idNoPin", "idValid", "idEdgeOut", "unknown"]
-CLASS = {"fullA": "A", "fullA2": "A", "fullA0": "A", "fullA3": "A", "fullA4": "A", "fullA5": "A", "fullBrown": "Brown", "fullM1": "MA", "fullM4": "MA", "fullMac": "Mac", "fullM2": "MJ", "fullM3": "MJ", "jour2": "jour", "lawU1": "lawU", "lawU2": "lawU", "fullB": "B", "fullC": "C", "fullC3": "C3", "fullP": "P", "fullQ": "Q", "fullU": "U", "law": "law", "lawR1": "lawR1", "lawR2": "lawR2", "jour": "jour", "jourP": "jourP"}
+CLASS = {"fullA": "A", "fullA2": "A", "fullA0": "A", "fullA3": "A", "fullA4": "A", "fullA5": "A", "fullBrown": "Brown", "fullM1": "MA", "fullM4": "MA", "fullM5": "MA", "fullFoo2": "Foo2", "fullDoeS": "DoeS", "fullDze": "Dze", "fullMac": "Mac", "fullM2": "MJ", "fullM3": "MJ", "jour2": "jour", "lawU1": "lawU", "lawU2": "lawU", "fullB": "B", "fullC": "C", "fullC3": "C3", "fullP": "P", "fullQ": "Q", "fullU": "U", "law": "law", "lawR1": "lawR1", "lawR2": "lawR2", "jour": "jour", "jourP": "jourP"}
 PLACEHOLDER_CLASSES = ("P", "Q", "U")  # every instance is its own resource: the canonical state counts them (capped at 2)
 K = {}
 
@@ -89,6 +95,8 @@ def build_alphabet():
     assert K["refJones"].metadata.defendant == "Jones"
     assert norm_reporter(K["fullM1"]) == "A.K. Marsh." and norm_reporter(K["fullM2"]) == norm_reporter(K["fullM3"]) == "J.J. Marsh."
     assert K["fullM1"].matched_text() == K["fullM2"].matched_text()
+    K["fullDze"].metadata.resolved_case_name_short = "Doe"
+    assert K["supraFooVol"].metadata.antecedent_guess == "Foo" and K["refDze"].metadata.defendant == "Dze" and K["fullM5"].year == 1821
     assert K["fullM4"].year == 1820 and K["supraMacArthur"].metadata.antecedent_guess == "MacArthur"
     return K
 
